@@ -140,6 +140,7 @@ def floors(tier):
         "cl_mismatch_rejected": 100,
         "cl_match_accepted": 50,
         "blocked_then_resumed": 200,
+        "push_promise_blocked_cases": 100,
     }
 
 
